@@ -9,7 +9,7 @@ import enum
 import attr
 
 
-def dump(obj, eq=False, _depth=0, _seen=None):
+def dump(obj, eq=False, _depth=0, _seen=None, tz=False):
     if _depth > 40:
         return ('<deep>',)
     if obj is None or isinstance(obj, (bool, int, float, str)):
@@ -23,20 +23,20 @@ def dump(obj, eq=False, _depth=0, _seen=None):
     if isinstance(obj, datetime.datetime):
         if obj.tzinfo is not None:
             off = obj.utcoffset()
-            if eq:      # aware datetimes are equal when they denote the same instant (as datetime.__eq__ does)
+            if eq and not tz:      # aware datetimes are equal when they denote the same instant (as == does)
                 return ('dt-aware', (obj - off).replace(tzinfo=None).isoformat())
             return ('dt-aware', (obj - off).replace(tzinfo=None).isoformat(), off.total_seconds())
         return ('dt-naive', obj.isoformat())
     if isinstance(obj, datetime.timedelta):
         return ('td', obj.total_seconds())
     if isinstance(obj, (list, tuple)):
-        return ('seq' if eq else type(obj).__name__,) + tuple(dump(x, eq, _depth + 1) for x in obj)
+        return ('seq' if eq else type(obj).__name__,) + tuple(dump(x, eq, _depth + 1, None, tz) for x in obj)
     if isinstance(obj, (set, frozenset)):
-        items = [dump(x, eq, _depth + 1) for x in obj]
+        items = [dump(x, eq, _depth + 1, None, tz) for x in obj]
         return ('set',) + tuple(sorted(items, key=repr))
     if isinstance(obj, dict):
-        items = [(dump(k, eq, _depth + 1), dump(v, eq, _depth + 1)) for k, v in obj.items()]
-        if type(obj).__name__ == 'OrderedDict' and not eq:
+        items = [(dump(k, eq, _depth + 1, None, tz), dump(v, eq, _depth + 1, None, tz)) for k, v in obj.items()]
+        if type(obj).__name__ == 'OrderedDict':     # order is part of the value (OrderedDict.__eq__)
             return ('odict',) + tuple(items)
         return ('dict',) + tuple(sorted(items, key=repr))
     if isinstance(obj, type):
@@ -64,17 +64,17 @@ def dump(obj, eq=False, _depth=0, _seen=None):
                 continue
             if f.name == 'param':
                 continue    # derived, class-level
-            out.append((f.name, dump(v, eq, _depth + 1)))
+            out.append((f.name, dump(v, eq, _depth + 1, None, tz)))
         extra = getattr(obj, '__dict__', None)
         if extra:
             names = {f.name for f in attr.fields(type(obj))}
             for k in sorted(extra):
                 if k not in names and k != 'param':
-                    out.append((k, dump(extra[k], eq, _depth + 1)))
+                    out.append((k, dump(extra[k], eq, _depth + 1, None, tz)))
         return tuple(out)
     d = getattr(obj, '__dict__', None)
     if d is not None and not callable(obj):
-        return (type(obj).__qualname__,) + tuple((k, dump(d[k], eq, _depth + 1)) for k in sorted(d) if k != 'param')
+        return (type(obj).__qualname__,) + tuple((k, dump(d[k], eq, _depth + 1, None, tz)) for k in sorted(d) if k != 'param')
     return ('repr', type(obj).__qualname__, repr(obj))
 
 
